@@ -316,6 +316,13 @@ LGTerms ==
      Op("equals", <<App("f2a", F2A, <<K1s, K2s>>), App("f2a", F2A, <<K2s, K1s>>)>>),
      Op("equals", <<App("f3s", F3S, <<Xx, Yy, Xx>>), App("f3s", F3S, <<Yy, Xx, Yy>>)>>),
      Op("equals", <<App("f2s", F2S, <<P, Qs>>), App("f2s", F2S, <<Qs, P>>)>>),
+     \* arithmetic that is / is not a difference constraint: nested subtractions over three symbols, sums, scaled symbols
+     Op("le", <<Op("minus", <<Op("minus", <<Xx, Yy>>), Sym("z", TInt)>>), IntC(3)>>),
+     Op("le", <<Op("minus", <<Xx, Op("minus", <<Yy, Sym("z", TInt)>>)>>), IntC(3)>>),
+     Op("lt", <<Op("minus", <<Sym("r", TReal), Sym("u", TReal)>>), Op("minus", <<Sym("v", TReal), RealC(<<1, 2>>)>>)>>),
+     Op("le", <<Op("minus", <<Xx, Yy>>), IntC(3)>>), Op("le", <<Op("minus", <<Op("minus", <<Xx, IntC(1)>>), Yy>>), IntC(3)>>),
+     Op("equals", <<Op("minus", <<Xx, Yy>>), Op("minus", <<Yy, Xx>>)>>),
+     Op("le", <<Op("minus", <<Xx, Yy>>), Sym("z", TInt)>>),
      \* a sort that occurs ONLY as the index / element sort of an INNER array sort (two and three levels down)
      Op("equals", <<Sym("nb", TArray(TInt, TArray(TBV(4), TInt))), Sym("nb2", TArray(TInt, TArray(TBV(4), TInt)))>>),
      Op("equals", <<Sym("nr", TArray(TInt, TArray(TReal, TInt))), Sym("nr2", TArray(TInt, TArray(TReal, TInt)))>>),
